@@ -14,7 +14,7 @@ VARIABLES c,         \* configuration (chosen in Init)
           returned,  \* successful pops: [k |-> "pop"/"popseq"/"popts", id, n, ts, ep]
           cleared,   \* identities that were buffered when some Clear was called
           ep,        \* playout-head epoch: +1 whenever the head is moved other than by a pop at the head
-          first,     \* number of the first packet buffered (-1: none yet)
+          first,     \* [n, ep]: number of the first packet buffered of the current playout (-1: none yet) and its epoch
           steps
 vars == <<c, x, pushed, returned, cleared, ep, first, steps>>
 \* the per-state clauses about results (MC_JitterBuffer_ops.cfg) depend on x only: the history is hidden there
@@ -27,13 +27,13 @@ Last(s) == s[Len(s)]
 
 Init == /\ c \in {[min |-> m, defmin |-> DefMin, over |-> Over] : m \in Mins}
         /\ x = JBInit(c)
-        /\ pushed = <<>> /\ returned = <<>> /\ cleared = {} /\ ep = 0 /\ first = -1 /\ steps = 0
+        /\ pushed = <<>> /\ returned = <<>> /\ cleared = {} /\ ep = 0 /\ first = [n |-> -1, ep |-> 0] /\ steps = 0
 
 Ret(k, r, n, t) == [k |-> k, id |-> r.id, n |-> n, ts |-> t, ep |-> ep]
 
 Push(n) == LET e == Entry(n, Len(pushed) + 1, TsOf(n)) IN
            /\ x' = JBPushStep(c, x, e) /\ pushed' = Append(pushed, e)
-           /\ first' = (IF x.buf = {} /\ ~x.ready THEN n ELSE first)
+           /\ first' = (IF x.buf = {} /\ ~x.ready THEN [n |-> n, ep |-> ep] ELSE first)
            /\ UNCHANGED <<c, returned, cleared, ep>>
 Pop == \E r \in JBPopOut(x) : IsOk(r)
            /\ x' = JBPopStep(x, r) /\ returned' = Append(returned, Ret("pop", r, x.head, -1))
@@ -48,7 +48,8 @@ PopTs(t) == \E r \in JBPopAtTsOut(x, t) : IsOk(r)
            /\ UNCHANGED <<c, pushed, cleared, ep, first>>
 SetHead(n) == x' = JBSetHeadStep(x, n) /\ ep' = ep + 1 /\ UNCHANGED <<c, pushed, returned, cleared, first>>
 Clear(b) == x' = JBClearStep(c, x, b) /\ cleared' = cleared \cup Ids(x.buf)
-            /\ UNCHANGED <<c, pushed, returned, ep, first>>
+            /\ ep' = (IF b THEN ep + 1 ELSE ep)        \* Clear(true) forgets the playout position: a new playout starts
+            /\ UNCHANGED <<c, pushed, returned, first>>
 
 Next == /\ steps < MaxSteps /\ steps' = steps + 1
         /\ \/ \E n \in Nums : Push(n) \/ PopSeq(n) \/ SetHead(n)
@@ -87,7 +88,7 @@ HeadPops(e) == SelectSeq(returned, LAMBDA r : r.k = "pop" /\ r.ep = e)
 Consecutive == \A e \in 0 .. ep : LET s == HeadPops(e) IN
                  \A i \in 1 .. Len(s) - 1 : s[i + 1].n = (s[i].n + 1) % M
 \* ... starting at the first packet buffered
-StartsAtFirst == HeadPops(0) # <<>> => HeadPops(0)[1].n = first
+StartsAtFirst == HeadPops(first.ep) # <<>> => HeadPops(first.ep)[1].n = first.n
 \* any result of any pop / peek / find is a currently buffered packet with the number asked for; the only
 \* nondeterminism is among duplicates of one number
 NumOf(id) == (CHOOSE e \in x.buf : e.id = id).n
